@@ -315,7 +315,9 @@ func c14Check(w *mc.W, cs *c14Case) {
 	// decoded twice into the same Renderer with the same options: the second decode starts from
 	// the (same) effective palette again, not from what the first left in the registers
 	for round, sfx := range []string{"", ":second-decode-into-the-same-renderer"} {
-		_ = round
+		if round == 1 && len(cs.Opts) > 4 {
+			break // the second decode is explored for every list of up to 4 options
+		}
 		ras.ResetLog()
 		if err := decode.Decode(&z, src, opts...); err != nil {
 			fail("decode-error"+sfx, err.Error())
